@@ -99,7 +99,7 @@ class E2E:
                                                     "oracle_minus_spec": sorted((python_oracle(tree) - spec_nodes).elements())[:6]})
         else:
             self.ctx.dist("c01.spec == independent Python oracle")
-        self.ctx.dist("hypotheses of C01_node_labels_pipeline (wfStages6 + treeOk stage6) " + ("hold" if r["wf_pipeline"] else "FAIL") + " on the real tree")
+        self.ctx.dist("hypotheses of C01_node_labels_pipeline (wfStages6 + wfTweak + treeOk of tweak) " + ("hold" if r["wf_pipeline"] else "FAIL") + " on the real tree")
         return collections.Counter((t, ln) for t, ln in r["nodes"]), tree
 
     def got_from_labels(self, labels, exp):
@@ -235,6 +235,8 @@ def parse_tsv(text):
         name, spans = row.split("\t", 1)
         couples = []
         for c in spans.split(", "):
+            if not c.strip():
+                continue  # a label listed without any span
             a, _, b = c.partition("-")
             couples.append((int(a), int(b or a)))
         labels.append((name, couples))
@@ -316,6 +318,8 @@ def run(ctx):
                     out.append([name, span.start, span.end, span.path])
         except ValueError:
             return {"exc": "ValueError"}
+        except Exception as exc:  # compared with the model's answer like any other result
+            return {"exc": type(exc).__name__}
         return {"bindings": out}
 
     drv = core.Driver()
@@ -354,8 +358,13 @@ def run(ctx):
             sources.append(src)
         for i, src in enumerate(sources):
             try:
-                lines = fe.flat_lines(fa.flatten_ast(ast.parse(src)))
+                tree0 = ast.parse(src)
             except (SyntaxError, ValueError):
+                continue
+            try:
+                lines = fe.flat_lines(fa.flatten_ast(tree0))
+            except Exception as exc:  # reported with this very source by the end-to-end stream below
+                ctx.dist(f"matcher:programs: flatten_ast raised {type(exc).__name__}")
                 continue
             compare_lines("matcher:programs", lines, hash(src))
         marks["matcher:programs"] = round(ctx.elapsed() - t0, 1)
@@ -404,7 +413,18 @@ def run(ctx):
 
         # ------------------------------------------------------------------------- (ii) end to end
         t1 = ctx.elapsed()
-        e2e = E2E(ctx, drv, (pp, lp, cli_tag, make_db, ut))
+        try:
+            e2e = E2E(ctx, drv, (pp, lp, cli_tag, make_db, ut))
+        except Exception as exc:
+            import traceback
+            ctx.broken.append("corr:C01 end to end (ProgramParser() cannot be constructed on the shipped spec.md)")
+            ctx.violations.append({
+                "what": f"ProgramParser() raised {type(exc).__name__}: {str(exc)[:300]} on the shipped spec.md: no program can be tagged",
+                "no_input": True, "name": "crash",
+                "replay": {"kind": "no-failing-input-found", "call": "paroxython.parse_program.ProgramParser()",
+                           "exception": f"{type(exc).__name__}: {str(exc)[:300]}",
+                           "traceback": traceback.format_exception(type(exc), exc, exc.__traceback__)[-8:]}})
+            return core.finish(ctx)
         progs = []
         for i, src in enumerate(SEEDS + ADVERSARIAL_SEEDS + MORE_ADVERSARIAL + WIDE_SEEDS):
             progs.append((f"seed{i}", src))
